@@ -237,6 +237,21 @@ a violation of a listed statement was first given corpus until a check reported 
 No sub-agent found a violation of C15, C19 or C20, nor of chunking independence (C02), conformance on well-formed input
 (C04-C06), the round trips (C01), or the visitor contract on accepted input (C09).
 
+**Second hunt** (four sub-agents: gotype as a whole, parsers and pull decoders, encoders, state and memory; they were
+given the 62 repairs and the list of behaviours judged above as outside the statements, `seeded/hunt2/`): 15 deliveries,
+8 distinct issues, 6 of them accepted and repaired - three of them were consequences of my own earlier repairs:
+
+| issue | reported by | verdict | check that sees it (before the repair) | repair |
+|---|---|---|---|---|
+| an `Iterator` refuses a type only once; folders compiled on the way to a refusal stay registered (partly caused by `574050b`) | G, J | genuine (C12 / C11) | C12 iterator histories (`SeedBadInline`) | `968402d` |
+| ubjson / cborl `Parser`: failed `Write`, empty `Write`, next `Write` loops forever (cborl: since `a22db03`); json `Parse` then `Write` continues the rejected document | H, J | genuine (C16, C03) | C16 (empty write among the follow-up calls) | `289ae5a` |
+| `NewDecoder(r, 0, v)`: `Next` polls forever (cborl / ubjson: since `c92062c`) | H | genuine (C18 "buffer sizes") | C18 (buffer size 0) | `3b7b02f` |
+| a type refused while a document is processed (cell of a processing unfolder) poisons the unfolder's registry; crash in the forwarding unfolder of `f5f3c9a` | J | genuine (C14) | C14 abandonment search | `99d594b` |
+| `SetTarget` on a target that has not received its document stacks the targets: panic / spurious errors for every document | J | genuine (C17, C14) | C17 (operations calling `SetTarget` twice) | `d9c63c2` |
+| folder registered for an interface type + `omitempty`: user function gets the address of the dynamic value | G | genuine (C12; memory safety) | C12 (`SeedShapeFolder`) | `67050b6` |
+| cborl: 6-8 million nested definite-length containers overflow the Go stack (recursive closing of finished containers) | H, I | real; far outside every bound of the checks (nesting is explored to 257 / 4 096 levels); the repair is a rewrite of the closing logic | - | not repaired (section 8) |
+| `type P *P` (fold spins, unfold overflows); folder registered for a pointer type bypassed by `omitempty`; nil inlined named container with a `Folder` contributes no members; `Reset` keeps references to the old target alive | G, J | pathological type / exotic registration / model and library agree / outside the five statements (documented contract of `Reset`) | - | - |
+
 ---------------------------------------------------------------------------
 
 """ % (seed_tab, rev_tab, ba_sec, ("Fixes whose revert is not detected by any quick check: %d (see rows with NONE)." % len(missing)) if missing else "Every revertible fix is detected by at least one quick check.")
